@@ -34,6 +34,9 @@ pub struct Case {
     pub imported: String,
     /// generic item before / after the importing item in the file
     pub generic_first: bool,
+    /// the workspace sits below a directory that is itself called `src` (~/src/checkout/<crate>/src/lib.rs)
+    #[serde(default)]
+    pub src_ancestor: bool,
 }
 
 const NAMES: &[&str] = &["Settings", "Endpoint", "Item", "Value", "Failure", "Config", "Money", "Node"];
@@ -102,8 +105,8 @@ impl SubCheck for C14Scope {
     }
     fn strategy(&self, _tier: Tier) -> BoxedStrategy<Case> {
         let dirs = prop_oneof![Just(("crate_a", "crate_b")), Just(("zeta-types", "app")), Just(("api", "core-types")), Just(("shared_models", "x-y-z")), Just(("shared_models", "codable"))];
-        (ws::lang_strategy(), dirs, proptest::sample::subsequence(NAMES.to_vec(), 2..=2).prop_shuffle(), 0u8..5, 0u8..4, any::<bool>(), any::<bool>(), any::<bool>())
-            .prop_map(|(lang, (a, b), names, lib_form, net_form, child_ref, generic_shadow, generic_first)| Case {
+        (ws::lang_strategy(), dirs, proptest::sample::subsequence(NAMES.to_vec(), 2..=2).prop_shuffle(), 0u8..5, 0u8..4, any::<bool>(), any::<bool>(), any::<bool>(), any::<bool>())
+            .prop_map(|(lang, (a, b), names, lib_form, net_form, child_ref, generic_shadow, generic_first, src_ancestor)| Case {
                 lang,
                 crate_a: a.to_string(),
                 crate_b: b.to_string(),
@@ -114,6 +117,7 @@ impl SubCheck for C14Scope {
                 child_ref,
                 generic_shadow,
                 generic_first,
+                src_ancestor,
             })
             .boxed()
     }
@@ -121,14 +125,14 @@ impl SubCheck for C14Scope {
         let mut out = vec![];
         let lang = c.lang;
         let root = cli::fresh_dir(&w.scratch, "c14s");
-        let tree = root.join("tree");
+        let tree = if c.src_ancestor { root.join("src").join("checkout").join("tree") } else { root.join("tree") };
         cli::write_tree(&tree, &c.tree());
         let outd = root.join("out");
         std::fs::create_dir_all(&outd).unwrap();
         let mut args = cli::lang_args(lang, &Cfg::plain());
         args.extend(["-d".into(), outd.to_string_lossy().into_owned(), tree.to_string_lossy().into_owned()]);
         let r = cli::run(&args, &root, &[], Duration::from_secs(20));
-        let form = format!("lib={}/net={}/child={}/generic={}", c.lib_form % 5, c.net_form % 4, c.child_ref, if c.generic_shadow { if c.generic_first { "first" } else { "after" } } else { "none" });
+        let form = format!("lib={}/net={}/child={}/generic={}{}", c.lib_form % 5, c.net_form % 4, c.child_ref, if c.generic_shadow { if c.generic_first { "first" } else { "after" } } else { "none" }, if c.src_ancestor { "/workspace-below-a-directory-named-src" } else { "" });
         if counting {
             run.label(&format!("c14s/{}/lib-form={}", lang.short(), c.lib_form % 5));
             run.label(&format!("c14s/net-form={}", c.net_form % 4));
